@@ -80,7 +80,40 @@ template <typename Char_T>
 Units render(const Units &tpl, const Value<Char_T> &v) {
     jm::Buf<Char_T>      b(tpl);
     StringStream<Char_T> ss;
-    Template::Render(b.cp(), SizeT(b.n), v, ss);
+    // The parsed form reaches the renderer in one of four ways (chosen by the template text, so a case always takes the same one):
+    // parsed and rendered in one call, through a caller-owned tag cache, through a copy-constructed cache, through a cache that was
+    // copy-assigned over another template's tags. What {var:} and {raw:} emit must not depend on it.
+    uint64_t h = 1469598103934665603ULL;
+    for (uint32_t u : tpl) {
+        h = (h ^ u) * 1099511628211ULL;
+    }
+    using TC = TemplateCore<Char_T, Value<Char_T>, StringStream<Char_T>>;
+    switch ((h >> 7) % 4) {
+        case 0: Template::Render(b.cp(), SizeT(b.n), v, ss); break;
+        case 1: {
+            Array<Tags::TagBit> cache;
+            Template::Render(b.cp(), SizeT(b.n), v, ss, cache);
+            break;
+        }
+        case 2: {
+            Array<Tags::TagBit> cache;
+            TC::Parse(b.cp(), SizeT(b.n), cache);
+            Array<Tags::TagBit> copy{cache};
+            TC                  tc{b.cp(), SizeT(b.n)};
+            tc.Render(copy, v, ss);
+            break;
+        }
+        default: {
+            Array<Tags::TagBit> cache, other;
+            const Char_T        o[] = {Char_T('{'), Char_T('v'), Char_T('a'), Char_T('r'), Char_T(':'), Char_T('q'), Char_T('}'), Char_T('x')};
+            TC::Parse(o, SizeT(8), other);
+            TC::Parse(b.cp(), SizeT(b.n), cache);
+            other = cache;
+            TC tc{b.cp(), SizeT(b.n)};
+            tc.Render(other, v, ss);
+            break;
+        }
+    }
     return jm::units_of(ss.First(), ss.Length());
 }
 Units ascii(const char *s) {
